@@ -13,10 +13,12 @@ def _mk(base, flavour):
     if flavour == 'Repr':
         ns['__repr__'] = lambda self: '<%s!>' % name
     elif flavour == 'Str':
-        ns['__str__'] = lambda self: '<<%s>>' % name
+        # long and of several words: a printer that (wrongly) goes through str()
+        # would have something to split over lines
+        ns['__str__'] = lambda self: '<<%s>> ' % name + 'not the value at all ' * 4
     elif flavour == 'Both':
         ns['__repr__'] = lambda self: '%s(?)' % name
-        ns['__str__'] = lambda self: 'str:%s' % name
+        ns['__str__'] = lambda self: 'str:%s ' % name + 'something else entirely ' * 4
     cls = type(name, (base,), ns)
     cls.__qualname__ = name
     globals()[name] = cls
